@@ -4,6 +4,7 @@ mod c04;
 mod c06;
 mod c07;
 mod c08;
+mod c12;
 mod c19;
 mod c20;
 mod ledger;
@@ -21,6 +22,7 @@ fn main() {
         "c06" => c06::run(&args[2..]),
         "c07" => c07::run(&args[2..]),
         "c08" => c08::run(&args[2..]),
+        "c12" => c12::run(&args[2..]),
         "c19" => c19::run(&args[2..]),
         "c20" => c20::run(&args[2..]),
         "c01" | "c02" | "c03" | "ledger" => ledger::run(&args[2..]),
